@@ -422,14 +422,35 @@ func checkC02(r *Run) {
 		arg := norm(s.Call.Args[2])
 		switch s.Root.Key {
 		case "p9.connState.handleRequest":
-			okA := allDefsAre(info, s.Root, s.Call.Args[2], func(e ast.Expr) bool {
-				t := norm(e)
-				if strings.HasPrefix(t, "atomic.LoadUint32(&") && strings.HasSuffix(t, ".messageSize)") {
-					return true
+			// (the value may be computed in place or handed back by a private getter)
+			sawLoad := false // (the ceiling alone is not the negotiated size)
+			var isMsize func(fi *FuncInfo, e ast.Expr, depth int) bool
+			isMsize = func(fi *FuncInfo, e ast.Expr, depth int) bool {
+				base := func(e ast.Expr) bool {
+					t := norm(e)
+					if strings.HasPrefix(t, "atomic.LoadUint32(&") && strings.HasSuffix(t, ".messageSize)") {
+						sawLoad = true
+						return true
+					}
+					if v, isC := constInt(info, e); isC {
+						return v == 4<<20 // before negotiation: the 4 MiB ceiling
+					}
+					if tf, rets := getterReturns(r.L, info, e); tf != nil && tf.Pkg == fi.Pkg && depth < 3 {
+						for _, ret := range rets {
+							if !isMsize(tf, ret, depth+1) {
+								return false
+							}
+						}
+						return true
+					}
+					return false
 				}
-				v, isC := constInt(info, e)
-				return isC && v == 4<<20 // before negotiation: the 4 MiB ceiling
-			})
+				if objOf(info, e) == nil {
+					return base(unparen(e))
+				}
+				return allDefsAre(info, fi, e, base)
+			}
+			okA := isMsize(s.Root, s.Call.Args[2], 0) && sawLoad
 			r.check(okA, "r2", "server passes the negotiated msize to recv", s.Call.Pos(), arg+" = cs.messageSize (4 MiB before negotiation)", "the server's receive limit "+arg+" is not the negotiated message size")
 		case "p9.Client.handleOne":
 			r.check(strings.HasSuffix(arg, ".messageSize"), "r2", "client passes the negotiated msize to recv", s.Call.Pos(), arg, "the client's receive limit is "+arg)
@@ -517,7 +538,7 @@ func checkC02(r *Run) {
 			r.ok("r3", key, ex.Ret.Pos(), "connection error: the connection ends")
 			continue
 		}
-		if !ex.St.Must["io.ReadAtLeast"] {
+		if !ex.St.Must["io.ReadAtLeast"] && !ex.St.Must["io.ReadFull"] {
 			r.fail("r3", key, ex.Ret.Pos(), "non-connection exit before the header was read")
 			continue
 		}
